@@ -214,6 +214,8 @@ type Exec struct {
 	P      *Program
 	Solver *sym.Solver
 	Cross  *sym.Solver
+	curFr  *frame
+	i2f    map[*T]*T // float terms produced from integer JSON tokens -> the integer term
 	CrossQ, CrossUnknown int
 	pc     []*T
 	prefix []int32
